@@ -128,7 +128,7 @@ class Recorder:
 REC = Recorder()
 
 
-def call_and_hold(calls, monitor):
+def call_and_hold(calls, monitor, hostile_caller=False):
     """run the getter calls, keep every returned object with its digest at return time, and afterwards require that none of the held
     objects changed (a later getter that re-uses and overwrites an earlier result's buffers shows up here)"""
     from vlib.props.c08 import dg
@@ -144,4 +144,19 @@ def call_and_hold(calls, monitor):
             REC.check(monitor, dg(obj) == d0, {"getter": name, "problem": "an object returned earlier was modified by a later call"})
         except Exception as e:
             REC.crashed(monitor, e)
+    if hostile_caller:
+        # a caller that works in place on what it was handed (as FullGrid.get_full_prefactors does with its own matrices): scramble every
+        # returned object, then ask again - the second answers are judged by the same postcondition monitors; an implementation that
+        # hands out its internal cache would now return the scrambled numbers
+        import numpy as np
+        for name, obj, d0 in held:
+            try:
+                if hasattr(obj, "data") and hasattr(obj, "format"):
+                    obj.data *= 7.25
+                elif isinstance(obj, np.ndarray) and obj.flags.writeable and obj.dtype.kind == "f":
+                    obj *= 7.25
+            except Exception:
+                pass
+        for c in calls:
+            c()
     return [h[1] for h in held]
